@@ -50,6 +50,18 @@ def as_numeric(str_number: str) -> int | float:
         return float(str_number)
 
 
+_uniq_marker_rx = re.compile("(\x7fUNIQ-[a-z0-9]+-\\d+-[a-f0-9]+-QINU\x7f)")
+
+
+def _skip_uniq_markers(fun, txt):
+    """apply fun to txt, but not to the markers that stand for <nowiki>, <math>, ... regions:
+    a marker whose case was changed is not found again and the region is lost"""
+    if "\x7f" not in txt:
+        return fun(txt)
+    parts = _uniq_marker_rx.split(txt)
+    return "".join(part if i % 2 else fun(part) for i, part in enumerate(parts))
+
+
 def maybe_numeric_compare(value1: str, value2: str) -> bool:
     if value1 == value2:
         return True
@@ -400,11 +412,11 @@ class NumberMagic:
 class StringMagic:
     @single_arg
     def LC(self, input_string):
-        return input_string.lower()
+        return _skip_uniq_markers(str.lower, input_string)
 
     @single_arg
     def UC(self, input_string):
-        return input_string.upper()
+        return _skip_uniq_markers(str.upper, input_string)
 
     @single_arg
     def LCFIRST(self, input_string):
